@@ -34,7 +34,7 @@ Proof.
   - right. right. destruct (uncovered s); [reflexivity|discriminate].
 Qed.
 
-Lemma sites_all_ok : List.length sites = n_sites /\ forallb (fun s => site_ok s || is_open s) sites = true.
+Lemma sites_all_ok : List.length sites = n_sites /\ forallb site_ok sites = true.
 Proof. split; vm_compute; reflexivity. Qed.
 
 Lemma rstmts_all_ok : List.length raise_stmts = n_raise_stmts /\ forallb rstmt_ok raise_stmts = true.
@@ -71,6 +71,3 @@ Proof.
   - apply negb_true_iff. exact H1.
   - apply mem_s_In. exact H2.
 Qed.
-
-Lemma open_sites_nonempty : open_sites <> [].
-Proof. discriminate. Qed.
